@@ -636,7 +636,9 @@ func tryInsertLiteral(ad *classad.ClassAd, attr, valueStr string) error {
 	if len(trimmed) >= 2 && trimmed[0] == '"' && trimmed[len(trimmed)-1] == '"' {
 		// Simple string without escape sequences
 		unquoted := trimmed[1 : len(trimmed)-1]
-		if !strings.Contains(unquoted, "\\") {
+		// Only a lone literal: an interior quote means the value is an expression over
+		// several literals ("a" + "b"), which the full parser must handle.
+		if !strings.ContainsAny(unquoted, "\\\"") {
 			_ = ad.Set(attr, unquoted) // ClassAd.Set always returns nil, safe to ignore
 			return nil
 		}
